@@ -186,7 +186,7 @@ def run(ctx: Ctx) -> None:
             k = rnd.randrange(len(text))
             text = text[:k] + rnd.choice(['', '', '(', ']', '|', ':', '"']) + text[k + 1:]
             ctx.count('stream:mutated')
-        ctx.case(text, '(' in text or '[' in text.split(':=', 1)[1])
+        ctx.case(text, '(' in text or '[' in text.split(':=', 1)[-1])
         try:
             tree = parser.parse(text, 'entry')
         except Errors.Syntax as e:
